@@ -35,9 +35,10 @@ ASSUMPTIONS = ["null-likes (None/NaN/NA) in object columns are the same value", 
                "Excel/SQLite: element tables only, values and index (not dtypes); a save that raises is a refusal "
                "(counted, not alarmed)", "short reads/writes are not injected (json/pickle require full reads by contract)"]
 REACH_PROBES = ["stream_error_fired", "save_raised_as_required", "replica_compared_after_later_calc",
-                "format_refused_to_save", "controllers_present_at_save", "groups_present_at_save"]
+                "controllers_present_at_save", "groups_present_at_save"]
 
-FORMATS = [("json_str", 4), ("json_stream", 3), ("json_path", 3), ("json_enc", 2), ("pickle_path", 3),
+FORMATS = [("json_str", 4), ("json_stream", 3), ("json_path", 3), ("json_enc", 2), ("json_enc_stream", 2), ("json_enc_str", 1),
+           ("pickle_path", 3),
            ("pickle_stream", 2), ("excel", 2), ("sqlite", 2)]
 TEMPLATES = [("feeder_all", 3), ("feeder", 3), ("case9", 2), ("feeder_t3w", 2), ("feeder_taptable", 2), ("cigre_mv", 1)]
 
@@ -328,6 +329,14 @@ def save_and_load(net, fmt, tmpdir, fault, ctx):
         p = os.path.join(tmpdir, "n_enc.json")
         pp.to_json(net, p, encryption_key="ppsim-key")
         return pp.from_json(p, encryption_key="ppsim-key"), None, False, False
+    if fmt == "json_enc_str":
+        s = pp.to_json(net, encryption_key="ppsim-key")
+        return pp.from_json_string(s, encryption_key="ppsim-key"), None, False, False
+    if fmt == "json_enc_stream":
+        # encryption is orthogonal to the kind of target: a caller-owned text stream
+        s = SimStream(False, fail_at=None, err=errno.ENOSPC)
+        pp.to_json(net, s, encryption_key="ppsim-key")
+        return pp.from_json(s.reader(), encryption_key="ppsim-key"), None, False, False
     if fmt in ("json_stream", "pickle_stream"):
         binary = fmt == "pickle_stream"
         size = len(pp.to_json(net)) if not binary else 20000
@@ -498,7 +507,11 @@ def _exec_save_load(L, op, i, ctx, tmpdir, since_save):
     snap = oracles.snapshot(L, with_results=True)
     if fault:
         ctx.fault_configured("stream-error")
-    loaded, exc, fired, refused = save_and_load(L, fmt, tmpdir, fault, ctx)
+    try:
+        loaded, exc, fired, refused = save_and_load(L, fmt, tmpdir, fault, ctx)
+    except Exception as e:
+        # (save errors are returned; this is the load - or a fault-free save - raising: judged below)
+        loaded, exc, fired, refused = None, e, False, False
     if fired:
         ctx.fault_fired("stream-error")
         ctx.probe("stream_error_fired")
@@ -527,7 +540,10 @@ def _exec_save_load(L, op, i, ctx, tmpdir, since_save):
             ctx.probe("save_raised_as_required")
         ctx.conclusive += 1
         # faults stop: the next save must succeed and round-trip
-        loaded, exc, _, _ = save_and_load(L, fmt, tmpdir, None, ctx)
+        try:
+            loaded, exc, _, _ = save_and_load(L, fmt, tmpdir, None, ctx)
+        except Exception as e:
+            loaded, exc = None, e
         fault = None
     if exc is not None:
         ctx.violation(f"C20|{fmt}|save or load raised {type(exc).__name__}",
